@@ -35,7 +35,7 @@ def relevant(prop, f):
             return c & {"U_keys", "U_raise"}
         return set()
     if prop == "C11":
-        return c & {"S_reject"} if sk in ("dropreq", "enum", "lit", "intval") else set()
+        return c & {"S_reject"} if sk in ("dropreq", "enum", "lit", "intval", "nested") else set()
     if prop == "C12":
         return c & {"S_ok", "S_reject", "K_ok", "K_reject"} if sk == "intval" else set()
     if prop == "C13":
@@ -60,7 +60,7 @@ def relevant(prop, f):
 
 SESSION_KINDS = {
     "C01": ["parse", "reparse"], "C02": ["ctor"], "C03": ["parse", "ctor", "unk", "dropspecial"], "C10": ["ctor", "dropspecial", "mutate"],
-    "C11": ["dropreq", "enum", "lit", "intval"], "C12": ["intval"], "C13": ["enum", "parse", "ctor"], "C14": ["parse"],
+    "C11": ["dropreq", "enum", "lit", "intval", "nested"], "C12": ["intval"], "C13": ["enum", "parse", "ctor"], "C14": ["parse"],
     "C15": ["unk"],
 }
 
@@ -208,22 +208,28 @@ def extra_C12(rep, tier):
     import subprocess
     work = common.scratch("c12-")
     try:
-        tp = os.path.join(work, "trace.json")
-        p = subprocess.run([common.PY, "-c", VALIDATOR_DRIVER, str(common.seed()), "200" if tier == "quick" else "5000", tp], cwd=common.VERIF,
-                           env=codec_check.pkg_env(os.path.join(common.REPO, "packages", "python")), stdout=subprocess.PIPE, stderr=subprocess.PIPE)
-        if p.returncode != 0:
-            raise common.MachineryError("validator driver failed:\n" + p.stderr.decode()[-2000:])
-        nev = int(p.stdout.decode().strip().splitlines()[-1])
-        rc, out = common.run_tlc("CodecTrace", codec_check.trace_cfg(1, nev), env={"LSP_MODEL": os.path.join(common.REPO, "generator", "lsp.json"), "CODEC_TRACE": tp}, heap="3g")
-        if '"@DONE' not in out:
-            raise common.MachineryError("CodecTrace.tla did not consume the validator trace:\n" + out[-2000:])
-        evs = json.load(open(tp))["sessions"][0]["ev"]
-        for f in common.tagged_lines(out, "@F"):
-            ev = evs[f["l"] - 1]
-            for clause in f["c"]:
-                rep.violation({"clause": clause, "fn": ev["fn"], "pyk": ev["pyk"], "res": ev["res"]}, ev)
-        rep.coverage["validator_calls_validated"] = nev
-        rep.coverage["traces_validated_against_impl"] = rep.coverage.get("traces_validated_against_impl", 0) + 1
+        total = 0
+        # the same calls in a plain interpreter and under python -O (assert statements removed)
+        for mode, extra_env in (("plain", {}), ("-O", {"PYTHONOPTIMIZE": "1", "PYTHONHASHSEED": "3"})):
+            tp = os.path.join(work, "trace-%s.json" % mode.strip("-"))
+            env = codec_check.pkg_env(os.path.join(common.REPO, "packages", "python"))
+            env.update(extra_env)
+            p = subprocess.run([common.PY, "-c", VALIDATOR_DRIVER, str(common.seed()), "200" if tier == "quick" else "5000", tp], cwd=common.VERIF,
+                               env=env, stdout=subprocess.PIPE, stderr=subprocess.PIPE)
+            if p.returncode != 0:
+                raise common.MachineryError("validator driver failed:\n" + p.stderr.decode()[-2000:])
+            nev = int(p.stdout.decode().strip().splitlines()[-1])
+            rc, out = common.run_tlc("CodecTrace", codec_check.trace_cfg(1, nev), env={"LSP_MODEL": os.path.join(common.REPO, "generator", "lsp.json"), "CODEC_TRACE": tp}, heap="3g")
+            if '"@DONE' not in out:
+                raise common.MachineryError("CodecTrace.tla did not consume the validator trace:\n" + out[-2000:])
+            evs = json.load(open(tp))["sessions"][0]["ev"]
+            for f in common.tagged_lines(out, "@F"):
+                ev = evs[f["l"] - 1]
+                for clause in f["c"]:
+                    rep.violation({"clause": clause, "fn": ev["fn"], "pyk": ev["pyk"], "res": ev["res"], "interpreter": mode}, ev)
+            total += nev
+        rep.coverage["validator_calls_validated"] = total
+        rep.coverage["traces_validated_against_impl"] = rep.coverage.get("traces_validated_against_impl", 0) + 2
     finally:
         shutil.rmtree(work, ignore_errors=True)
 
